@@ -171,7 +171,9 @@ def run_special(acc, api):
 NEAR = ['-nan', '+nan', '+NaN', '-NaN', ' -nan ', 'nan ', ' nan', '-Infinity', '+Infinity', '+infinity', ' inf', '-INF', 'nan', 'NaN', 'inf', '-inf', 'Infinity', '+inf', '1e999', '-1e999', '12abc', '1.2.3', '--1', '1e', '', ' ', '0x10', '1,5', 'abc', '1e+', '.', '-', '+',
         'e5', '1 2', '1..2', 'null', 'true', '1e5.5', '0b11', '1f', 'nan1', 'infinity', '- 1', '1-',
         # underscores at an end of the text (only an INNER underscore is a tolerated liberal extra of the pinned tree)
-        '_15', '15_', '1.5_', '_1.5', '__2e+22', '_ 7 _', '_', '1_']
+        '_15', '15_', '1.5_', '_1.5', '__2e+22', '_ 7 _', '_', '1_',
+        # numerals beyond the double range, written with digits only (no exponent): not a number of the language
+        '9' * 310, '1' + '0' * 309, '-' + '9' * 400, '1' + '0' * 400 + '.5', '1797693134862316' + '0' * 293]
 GOOD = [('0', 0), ('1', 1), ('-1', -1), ('1.5', 1.5), ('1e3', 1000), ('1E3', 1000), ('-2.5e-3', -0.0025), ('007', 7), ('1.', 1), ('.5', 0.5), ('+3', 3),
         ('123456789012345678', 123456789012345678.0)]
 
